@@ -292,7 +292,11 @@ def random_plot_spec(rng, nframes=None):
             mode = rng.choice([b'SHIF', b'SHIF', b'GRAD', b'NB  ', b'WRAP', b'WRAP', b'X10 '])
             lo, hi = _rand_edges(rng, mode == b'GRAD')
             dest = rng.choice([b'ALL ', b'BOTH' if nfilm == 2 else b'ALL ', films[rng.randrange(nfilm)][0]])
-            curves.append({'mnem': mn, 'outp': nm, 'trac': None, 'dest': dest, 'mode': mode, 'ledg': q68(lo), 'redg': q68(hi), 'shape': None})
+            lo, hi = q68(lo), q68(hi)
+            if lo == hi or (mode == b'GRAD' and (lo <= 0 or hi <= 0)):     # quantifier: left != right, both > 0 for log
+                lo, hi = (0.2, 2000.0) if mode == b'GRAD' else (q68(lo), q68(lo + max(abs(lo), 1.0)))
+                lo, hi = q68(lo), q68(hi)
+            curves.append({'mnem': mn, 'outp': nm, 'trac': None, 'dest': dest, 'mode': mode, 'ledg': lo, 'redg': hi, 'shape': None})
     spec['curves'] = curves
     spec['up'] = rng.random() < 0.6
     spec['x_units'] = rng.choice([b'FEET', b'FEET', b'M   ', b'.1IN'])
@@ -364,6 +368,10 @@ def lis_plot_file(rng, spec):
         frames.append(enc68(xs[i])[0] + b''.join(enc68(m.channels[nm][i])[0] for nm in spec['channels']))
     per = rng.choice([1, 3, 8, 20])
     per = max(1, min(per, (1024 - 6) // max(len(frames[0]), 1)))
+    if spec.get('single_record'):
+        per = n                          # the whole log pass in one data record (may span physical records)
+    elif per >= n:
+        per = max(1, (n + 1) // 2)       # at least two data records
     m.frames_per_record = per
     lrs = [file_head_tail(128), table(b'FILM', rows_film), table(b'PRES', rows_pres), dfsr(chans, m.up, spacing, m.x_units)]
     lrs += data_records(frames, per)
